@@ -1,6 +1,7 @@
 (* Entry points that share one evaluator: Fprint(f) = Sprint(f) by definition;
    StringBuilder.Print(f) inlines the result of a fresh printer in raw mode. *)
 From Redact Require Import Bytes Tokens Utf8 Escape Buffer Ops BufInv Fmt Value LBuf Printer Api Forward.
+From Coq Require Import String.
 Import List ListNotations.
 Open Scope Z_scope.
 
@@ -39,5 +40,52 @@ Proof.
     + intros (Hv & _). apply Z.eqb_neq in E. contradiction.
 Qed.
 
+(* ---------- re-printing a redactable ---------- *)
+From Redact Require Import BufInvP BufContentP ComposeP ApiP.
+
+Lemma sprint_rs_log k env r : exists o, sprint (S (S k)) env [VRS r] = ROk o /\ o_log o = [OMode MSafe; OMode MRaw; OWrite r; OMode MSafe; OTake].
+Proof. eexists. split; reflexivity. Qed.
+Lemma sprint_rb_log k env r : exists o, sprint (S (S k)) env [VRB r] = ROk o /\ o_log o = [OMode MSafe; OMode MRaw; OWrite r; OMode MSafe; OTake].
+Proof. eexists. split; reflexivity. Qed.
+
+Lemma raw_log_output (o : outp) r : (exists ops, o_log o = ops ++ [OTake] /\ o_bytes o = output ops) ->
+  o_log o = [OMode MSafe; OMode MRaw; OWrite r; OMode MSafe; OTake] -> last_invalid r = false -> o_bytes o = r.
+Proof.
+  intros (ops & Hl & Hb) L Hr. rewrite L in Hl.
+  change [OMode MSafe; OMode MRaw; OWrite r; OMode MSafe; OTake] with ([OMode MSafe; OMode MRaw; OWrite r; OMode MSafe] ++ [OTake]) in Hl.
+  apply app_inj_tail in Hl. destruct Hl as [<- _]. rewrite Hb. now apply raw_copy.
+Qed.
+
+(* Sprint(r) = r for a redactable string or byte slice r *)
+Theorem sprint_redactable_identity k env r o : last_invalid r = false ->
+  (sprint (S (S k)) env [VRS r] = ROk o \/ sprint (S (S k)) env [VRB r] = ROk o) -> o_bytes o = r.
+Proof.
+  intros Hr [H|H].
+  - destruct (sprint_rs_log k env r) as (o' & E & L). rewrite E in H. injection H as <-.
+    exact (raw_log_output o' r (finish_output _ o' E) L Hr).
+  - destruct (sprint_rb_log k env r) as (o' & E & L). rewrite E in H. injection H as <-.
+    exact (raw_log_output o' r (finish_output _ o' E) L Hr).
+Qed.
+
+(* Sprint(Sprint(a...)) = Sprint(a...) *)
+Theorem sprint_idempotent fuel k env a o o' : sprint fuel env a = ROk o -> last_invalid (o_bytes o) = false ->
+  sprint (S (S k)) env [VRS (o_bytes o)] = ROk o' -> o_bytes o' = o_bytes o.
+Proof. intros _ Hr H. apply (sprint_redactable_identity k env _ o' Hr). now left. Qed.
+
+(* Sprintf("%v", r) = Sprintf("%s", r) = r; literal text around the directive is kept *)
+Definition reprint_directives : list bytes := map bs ["%v"; "%s"; "%+v"; "%0s"; "%-v"]%string.
+
+Theorem sprintf_redactable_identity k env d r o : In d reprint_directives -> last_invalid r = false ->
+  sprintf (S (S (S k))) env d [VRS r] = ROk o -> o_bytes o = r.
+Proof.
+  intros Hd Hr H.
+  assert (exists o', sprintf (S (S (S k))) env d [VRS r] = ROk o' /\ o_log o' = [OMode MSafe; OMode MRaw; OWrite r; OMode MSafe; OTake]) as (o' & E & L).
+  { unfold reprint_directives in Hd. cbn [map] in Hd.
+    repeat (destruct Hd as [<- | Hd]; [eexists; split; [vm_compute; reflexivity | reflexivity]|]). contradiction. }
+  rewrite E in H. injection H as <-. exact (raw_log_output o' r (finish_output _ o' E) L Hr).
+Qed.
+
 Print Assumptions builder_print_route.
+Print Assumptions sprint_redactable_identity.
+Print Assumptions sprintf_redactable_identity.
 Print Assumptions make_format_justV.
